@@ -18,38 +18,7 @@ import asm_common as C
 BASIS_KIND = {"DP0": 0, "DP1": 1, "P1": 1, "RWG": 2, "SNC": 3}
 
 
-class PyFuncMode(object):
-    """Execute the Numba-decorated sparse kernels and grid-function routines through .py_func (same source text, no
-    JIT specialisation per space type / callable).  Used by the correspondence and by the quick search."""
-
-    def __init__(self, enabled=True):
-        self.enabled = enabled
-
-    def __enter__(self):
-        if not self.enabled:
-            return self
-        import bempp_cl.core.numba_kernels as nk
-        import bempp_cl.api.assembly.grid_function as gfm
-        self.nk, self.gfm = nk, gfm
-        self.saved = (nk.select_numba_kernels, gfm._project_function, gfm._project_function_vectorized, gfm._integrate)
-        orig = nk.select_numba_kernels
-
-        def select(desc, mode="regular"):
-            a, k = orig(desc, mode)
-            if mode == "sparse":
-                return a.py_func, k.py_func
-            return a, k
-        nk.select_numba_kernels = select
-        gfm._project_function = gfm._project_function.py_func
-        gfm._project_function_vectorized = gfm._project_function_vectorized.py_func
-        gfm._integrate = gfm._integrate.py_func
-        return self
-
-    def __exit__(self, *a):
-        if self.enabled:
-            (self.nk.select_numba_kernels, self.gfm._project_function, self.gfm._project_function_vectorized,
-             self.gfm._integrate) = self.saved
-        return False
+PyFuncMode = C.PyFuncMode
 
 
 def gx_dump(grid):
@@ -182,14 +151,20 @@ def run_corr(cfg):
             "centers": [C.dyl(centers[k]) for k in range(dim)], "vertices": [C.dyl(verts[k]) for k in range(dim)],
             "third": C.dy(1.0 / 3), "tol": C.dy(1e-11 * scale), "ndof": int(sp.global_dof_count)})
 
-    # MultiplicationOperator, scalar component mode
-    n = 5 if strength == "quick" else 20
+    # MultiplicationOperator: scalar and vector-valued 'component' mode, 'inner' mode; restricted supports
+    n = 7 if strength == "quick" else 24
+    sc, vec = ["DP0", "DP1", "P1"], ["RWG", "SNC"]
     for i in range(n):
         gname = ["octa", "screen22", "tetra", "screen31", "two"][i % 5]
         grid = C.make_grid(gname, rng, distorted=True)
-        ks = ["DP0", "DP1", "P1"]
-        tk, rk, fk = ks[i % 3], ks[(i + 1) % 3], ks[(i + 2) % 3]
-        opts = [{} if i == 0 else C.random_space_opts(grid, k, rng) for k in (tk, rk, fk)]
+        kindsel = i % 7
+        if kindsel in (0, 1, 2):
+            mode, tk, rk, fk = "component", sc[i % 3], sc[(i + 1) % 3], sc[(i + 2) % 3]
+        elif kindsel in (3, 4):
+            mode, tk, rk, fk = "component", vec[i % 2], "RWG", vec[(i + 1) % 2]
+        else:
+            mode, tk, rk, fk = "inner", sc[i % 3], vec[i % 2], vec[(i + 1) % 2]
+        opts = [{} if i in (0, 3) else C.random_space_opts(grid, k, rng) for k in (tk, rk, fk)]
         for o in opts:
             o.pop("swapped_normals", None)
         try:
@@ -197,13 +172,14 @@ def run_corr(cfg):
             C.set_orders(2, 2)
             gco = rng.integers(-8, 9, size=sf.global_dof_count) / 8.0
             g = api.GridFunction(sf, coefficients=gco)
-            mop = api.MultiplicationOperator(g, sr, sr, st)
+            mop = api.MultiplicationOperator(g, sr, sr, st, mode=mode)
             mat = np.asarray(mop.weak_form().to_sparse().todense())
         except Exception as e:
-            out["errors"].append({"where": "mult", "spec": [gname, tk, rk, fk, opts], "error": repr(e)})
+            out["errors"].append({"where": "mult", "spec": [gname, mode, tk, rk, fk, opts], "error": repr(e)})
             continue
         out["mult"].append({
-            "spec": {"grid": gname, "test": [tk, opts[0]], "trial": [rk, opts[1]], "fun": [fk, opts[2]]},
+            "spec": {"grid": gname, "mode": mode, "test": [tk, opts[0]], "trial": [rk, opts[1]], "fun": [fk, opts[2]]},
+            "mode": 0 if mode == "component" else 1,
             "grid": C.dump_grid(grid), "gx": gx_dump(grid), "test": C.dump_space(st, tk), "trial": C.dump_space(sr, rk),
             "fun": C.dump_space(sf, fk), "kt": BASIS_KIND[tk], "kr": BASIS_KIND[rk], "kf": BASIS_KIND[fk],
             "gcoef": C.dyl(g.grid_coefficients), "rule": C.rule_dump(2), "rows": int(mat.shape[0]),
